@@ -12,6 +12,7 @@
 -/
 import XzVerif.Lemmas.FlushStream2
 import XzVerif.Lemmas.FlushC01
+import XzVerif.Lemmas.FlushC01Chunks
 import XzVerif.Gen.C12
 
 namespace XzVerif.C12
@@ -485,6 +486,128 @@ theorem lzma2Codec_inv (dictSize : Nat) (hd : dictSize ≤ 4294967295) (P : Pars
     (lzmaCodec dictSize P).dec p s d ch.payload ch.n = some (a.take ch.n, s') :=
   lzmaCodec_inv dictSize hd P fl p s d a ch s' h hz
 
+open XzVerif.FlushC01 in
+/-- **lzma2Codec_sound_literal**: a hypothesis-free instance. `literalParser` codes, when flushing, the next (at most
+    64 KiB = LZMA2_CHUNK_MAX) unencoded bytes as LZMA literals and never closes a chunk under LZMA_RUN. For it all three
+    remaining hypotheses of `lzma2Codec_sound_partial` hold — `hlimits` in its stated form: a chunk covers at most 64 KiB,
+    so an LZMA chunk (payload shorter than the data) has at most 64 KiB of payload and a stored one at most 64 KiB of
+    data; these are the limits `lzma2_encode` asserts — hence the C01 symbol coder + range coder with this parser IS a
+    sound codec, and the flush theorems hold for it without any assumption on the compressor:
+    (1) the contract; (2) after ANY history a SYNC_FLUSH (with or without new input) returns LZMA_STREAM_END and the
+    output so far decodes, chunk by chunk with C01's range decoder + symbol decoder, to exactly the input so far, the
+    decoder resting at a chunk boundary, and the history may go on; (3) finishing after any history gives chunks + end
+    marker that decode to the whole input. -/
+theorem lzma2Codec_sound_literal (dictSize : Nat) (hd : dictSize ≤ 4294967295) :
+    (lzmaCodec dictSize literalParser).Sound ∧
+    (∀ (fs : Chain), SyncChain fs → ∀ (ops : List Op) (data : Bytes),
+      (Enc.execAll (lzmaEnv dictSize literalParser) (Enc.rawInit (lzmaEnv dictSize literalParser) fs) ops).1.finished = false →
+      let r := Enc.execAll (lzmaEnv dictSize literalParser) (Enc.rawInit (lzmaEnv dictSize literalParser) fs) (ops ++ [.code .syncFlush data])
+      r.2.rets.getLast? = some .streamEnd ∧
+      ∃ d, Decodes (lzmaCodec dictSize literalParser) (Dec.init (lzmaCodec dictSize literalParser)) (bodies r.2.segs) d [] ∧
+        d.ended = false ∧ d.out = r.2.input) ∧
+    (∀ (fs : Chain), SyncChain fs → ∀ (ops : List Op) (data : Bytes),
+      (Enc.execAll (lzmaEnv dictSize literalParser) (Enc.rawInit (lzmaEnv dictSize literalParser) fs) ops).1.finished = false →
+      let r := Enc.execAll (lzmaEnv dictSize literalParser) (Enc.rawInit (lzmaEnv dictSize literalParser) fs) (ops ++ [.code .finish data])
+      r.2.rets.getLast? = some .streamEnd ∧
+      ∃ d, Decodes (lzmaCodec dictSize literalParser) (Dec.init (lzmaCodec dictSize literalParser)) (bodies r.2.segs) d [] ∧
+        d.ended = true ∧ d.out = r.2.input) := by
+  have hS : (lzmaCodec dictSize literalParser).Sound :=
+    lzma2Codec_sound_partial dictSize hd literalParser (literalParser_limits dictSize hd) (literalParser_live dictSize) literalParser_lag
+  refine ⟨hS, ?_, ?_⟩
+  · intro fs hfs ops data hrun
+    exact sync_flush_decodable (lzmaEnv dictSize literalParser) (fun _ => hS) fs hfs ops data hrun
+  · intro fs hfs ops data hrun
+    exact raw_finish_decodable (lzmaEnv dictSize literalParser) (fun _ => hS) fs hfs ops data hrun
+
+open XzVerif.FlushC01 in
+/-- **"Decodable" by the decoder model of C01/C03** (`Lzma2.lzma2Decode`, the executable model of lzma2_decoder.c over
+    lz_decoder.c and lzma_decoder.c): with C01's chunk codec and ANY parser for which the codec is sound, what the flush
+    model has written when a SYNC_FLUSH completes is a chunk sequence of C01's chunk specification covering exactly the
+    input so far; closed with the end-marker byte it is decoded by the executable decoder to exactly the input so far,
+    LZMA_STREAM_END, every byte consumed.
+    `_partial`, two things stay open: (a) the statement is about output ++ [0x00], not about the decoder stopped at the end
+    of the truncated output (C01's proof of the executable decoder is for streams with end marker; no slicing theorem for
+    it exists yet) — for the chunk-level decoder `Dec` of this file the truncated form is `sync_flush_decodable`;
+    (b) histories are restricted to updates that leave lc/lp/pb alone (`KeepsProps`): C01's chunk specification is for
+    fixed lc/lp/pb. The .xz container (`Fmt` vs `XzDecode.xzDecode`) is not linked here. -/
+theorem sync_flush_real_decoder_partial (dictSize : Nat) (hd : dictSize ≤ 4294967295) (P : Parser)
+    (hS : (lzmaCodec dictSize P).Sound) (fs : Chain) (hfs : SyncChain fs) (ops : List Op) (data : Bytes)
+    (hk : ∀ op ∈ ops, KeepsProps (lastProps fs) op)
+    (hrun : (Enc.execAll (lzmaEnv dictSize P) (Enc.rawInit (lzmaEnv dictSize P) fs) ops).1.finished = false)
+    (cap : Nat) :
+    let r := Enc.execAll (lzmaEnv dictSize P) (Enc.rawInit (lzmaEnv dictSize P) fs) (ops ++ [.code .syncFlush data])
+    r.2.input.length < cap →
+    Lzma2.lzma2Decode dictSize (bodies r.2.segs ++ [0]) [] cap
+      = { ret := .streamEnd, out := r.2.input, consumed := (bodies r.2.segs).length + 1 } := by
+  intro r hcap
+  have hE : ∀ i, ((lzmaEnv dictSize P).codec i).Sound := fun _ => hS
+  obtain ⟨f, hl, hkind, hv⟩ := hfs.last
+  have hp0 : (lastProps fs).valid = true := by simp [lastProps, hl, hv]
+  have hinv0 := RawChunkInv.execAll dictSize hd P hS (lastProps fs) ops _ _ hk (RawChunkInv.init dictSize P hfs)
+  have hr : r = Enc.exec (lzmaEnv dictSize P) (Enc.execAll (lzmaEnv dictSize P) (Enc.rawInit (lzmaEnv dictSize P) fs) ops)
+      (.code .syncFlush data) := execAll_append _ _ _ _
+  change RawChunkInv dictSize P (lastProps fs) (Enc.execAll (lzmaEnv dictSize P) (Enc.rawInit (lzmaEnv dictSize P) fs) ops).1
+    (Enc.execAll (lzmaEnv dictSize P) (Enc.rawInit (lzmaEnv dictSize P) fs) ops).2 at hinv0
+  obtain ⟨f1, f2, f3, r', f4, f5⟩ := RawInv.flush hE hinv0.raw hrun data
+  have hinv := RawChunkInv.step dictSize hd P hS (lastProps fs) hinv0 (.code .syncFlush data) trivial
+  rw [← hr] at f1 f2 f3 f4 hinv
+  obtain ⟨r'', hc, hci⟩ := hinv.running f3
+  rw [f4] at hc; cases hc
+  obtain ⟨⟨r3, hc3, hok⟩, _, _⟩ := hinv.raw
+  rw [f4] at hc3; cases hc3
+  obtain ⟨d, _, _, hh⟩ := hok.running f3 []
+  rw [f5, List.append_nil] at hh
+  have := chunkInv_decodes dictSize hd (lastProps fs) hp0 hci f5 cap (by rw [hh]; exact hcap)
+  rw [hh] at this
+  exact this
+
+open XzVerif.FlushC01 in
+/-- ... and the finished raw LZMA2 stream (after any history of RUN / SYNC_FLUSH / lc-lp-pb-preserving updates) is
+    decoded by the executable decoder model to the whole input, LZMA_STREAM_END, every byte consumed.
+    `_partial` only because of restriction (b) above. -/
+theorem finish_real_decoder_partial (dictSize : Nat) (hd : dictSize ≤ 4294967295) (P : Parser)
+    (hS : (lzmaCodec dictSize P).Sound) (fs : Chain) (hfs : SyncChain fs) (ops : List Op) (data : Bytes)
+    (hk : ∀ op ∈ ops, KeepsProps (lastProps fs) op)
+    (hrun : (Enc.execAll (lzmaEnv dictSize P) (Enc.rawInit (lzmaEnv dictSize P) fs) ops).1.finished = false)
+    (cap : Nat) :
+    let r := Enc.execAll (lzmaEnv dictSize P) (Enc.rawInit (lzmaEnv dictSize P) fs) (ops ++ [.code .finish data])
+    r.2.input.length < cap →
+    Lzma2.lzma2Decode dictSize (bodies r.2.segs) [] cap
+      = { ret := .streamEnd, out := r.2.input, consumed := (bodies r.2.segs).length } := by
+  intro r hcap
+  have hE : ∀ i, ((lzmaEnv dictSize P).codec i).Sound := fun _ => hS
+  obtain ⟨f, hl, hkind, hv⟩ := hfs.last
+  have hp0 : (lastProps fs).valid = true := by simp [lastProps, hl, hv]
+  have hinv0 := RawChunkInv.execAll dictSize hd P hS (lastProps fs) ops _ _ hk (RawChunkInv.init dictSize P hfs)
+  have hr : r = Enc.exec (lzmaEnv dictSize P) (Enc.execAll (lzmaEnv dictSize P) (Enc.rawInit (lzmaEnv dictSize P) fs) ops)
+      (.code .finish data) := execAll_append _ _ _ _
+  change RawChunkInv dictSize P (lastProps fs) (Enc.execAll (lzmaEnv dictSize P) (Enc.rawInit (lzmaEnv dictSize P) fs) ops).1
+    (Enc.execAll (lzmaEnv dictSize P) (Enc.rawInit (lzmaEnv dictSize P) fs) ops).2 at hinv0
+  obtain ⟨_, _, f3⟩ := RawInv.finish hE hinv0.raw hrun data
+  have hinv := RawChunkInv.step dictSize hd P hS (lastProps fs) hinv0 (.code .finish data) trivial
+  rw [← hr] at f3 hinv
+  obtain ⟨bytes, l, hb, hci, hun, hh⟩ := hinv.ended f3
+  have := chunkInv_decodes dictSize hd (lastProps fs) hp0 hci hun cap (by rw [hh]; exact hcap)
+  rw [hb, ← hh]
+  simpa using this
+
+open XzVerif.FlushC01 in
+/-- both, for the hypothesis-free literal codec -/
+theorem literal_flush_real_decoder_partial (dictSize : Nat) (hd : dictSize ≤ 4294967295) (fs : Chain) (hfs : SyncChain fs)
+    (ops : List Op) (data : Bytes) (hk : ∀ op ∈ ops, KeepsProps (lastProps fs) op)
+    (hrun : (Enc.execAll (lzmaEnv dictSize literalParser) (Enc.rawInit (lzmaEnv dictSize literalParser) fs) ops).1.finished = false)
+    (cap : Nat) :
+    (let r := Enc.execAll (lzmaEnv dictSize literalParser) (Enc.rawInit (lzmaEnv dictSize literalParser) fs) (ops ++ [.code .syncFlush data])
+     r.2.input.length < cap →
+     Lzma2.lzma2Decode dictSize (bodies r.2.segs ++ [0]) [] cap
+       = { ret := .streamEnd, out := r.2.input, consumed := (bodies r.2.segs).length + 1 }) ∧
+    (let r := Enc.execAll (lzmaEnv dictSize literalParser) (Enc.rawInit (lzmaEnv dictSize literalParser) fs) (ops ++ [.code .finish data])
+     r.2.input.length < cap →
+     Lzma2.lzma2Decode dictSize (bodies r.2.segs) [] cap
+       = { ret := .streamEnd, out := r.2.input, consumed := (bodies r.2.segs).length }) :=
+  ⟨sync_flush_real_decoder_partial dictSize hd literalParser (lzma2Codec_sound_literal dictSize hd).1 fs hfs ops data hk hrun cap,
+   finish_real_decoder_partial dictSize hd literalParser (lzma2Codec_sound_literal dictSize hd).1 fs hfs ops data hk hrun cap⟩
+
 /-! ## Non-vacuity: a concrete compressor that satisfies the contract, and concrete histories -/
 
 /-- A toy compressor: two equal bytes become a one-byte LZMA chunk ("run of two"), anything else a stored chunk of one
@@ -598,22 +721,13 @@ example (F : Fmt) := flush_then_continue toyEnv (fun _ => toyCodec_sound) F lzma
 example (F : Fmt) := full_flush_ends_block toyEnv (fun _ => toyCodec_sound) F lzma2Chain 4 (by decide)
   [.code .fullFlush [], .code .run [1, 1]] .fullBarrier (Or.inr rfl) [] (by decide) (by decide)
 
-/-! ### the hypotheses of `lzma2Codec_sound_partial` are satisfiable: a parser that codes one literal per chunk -/
 
-open XzVerif.FlushC01 XzVerif.LzmaEnc XzVerif.LzmaSym in
-def literalParser : Parser :=
-  { pick := fun fl _ _ _ a => if fl then (match a with | b :: _ => some [Sym.lit b] | [] => none) else none }
+/-- the hypothesis-free theorems apply: SYNC_FLUSH (and FINISH) of three bytes as the first call on the C01 literal codec;
+    the executable decoder model returns exactly these bytes -/
+example := literal_flush_real_decoder_partial 65536 (by decide) lzma2Chain ⟨⟨_, rfl, by decide, by decide⟩, by decide⟩
+  [] [1, 2, 3] (by intro op h; cases h) rfl 100
 
-open XzVerif.FlushC01 XzVerif.LzmaEnc XzVerif.LzmaSym in
-example : literalParser.Lag := by
-  intro p s d a syms h; simp [literalParser] at h
-
-open XzVerif.FlushC01 XzVerif.LzmaEnc XzVerif.LzmaSym in
-example (dictSize : Nat) : literalParser.Live dictSize := by
-  intro p s d a _ _ _ ha
-  match a, ha with
-  | b :: rest, _ =>
-    refine ⟨[Sym.lit b], by simp [literalParser], by simp [symsLen, Sym.len], by simp [symsLen, Sym.len], ?_⟩
-    simp [lzExpand, applySym, symsLen, Sym.len]
+example := (lzma2Codec_sound_literal 65536 (by decide)).2.1 deltaLzma2 ⟨⟨_, rfl, by decide, by decide⟩, by decide⟩
+  [] [7, 7, 7] rfl
 
 end XzVerif.C12
